@@ -89,7 +89,11 @@ impl PhoneticSuggestion {
                     let key = &middle[..(middle.len() - suffix_key.len())];
                     if let Some(cache) = self.cache.get(key) {
                         for base in cache {
-                            let base_rmc = base.to_string().chars().last().unwrap(); // Right most character.
+                            // Right most character. Skip empty entries (possible with user's auto correct file).
+                            let base_rmc = match base.to_string().chars().last() {
+                                Some(character) => character,
+                                None => continue,
+                            };
                             let suffix_lmc = suffix.chars().next().unwrap(); // Left most character.
                             let mut word = String::with_capacity(middle.len() * 3);
                             word.push_str(base.to_string());
@@ -265,7 +269,12 @@ impl PhoneticSuggestion {
                     let key = &string.word()[..len - test.len()];
 
                     if let Some(base) = selections.get(key) {
-                        let rmc = base.chars().last().unwrap();
+                        // Skip empty entries (possible with a hand edited selection file or
+                        // when a meta character only candidate was selected).
+                        let rmc = match base.chars().last() {
+                            Some(character) => character,
+                            None => continue,
+                        };
                         let suffix_lmc = suffix.chars().next().unwrap();
                         selected.push_str(base);
 
